@@ -34,6 +34,15 @@ Ltac cmp_all :=
          | |- context [Z.geb ?a ?b] => let E := fresh "E" in destruct (Z.geb a b) eqn:E; try lia
          end.
 
+(* a <= b is known: give every comparison of the two in the goal its value, however it is written *)
+Ltac know_le a b :=
+  try replace (a <=? b) with true by lia; try replace (b >=? a) with true by lia;
+  try replace (a >? b) with false by lia; try replace (b <? a) with false by lia.
+(* a < b is known *)
+Ltac know_lt a b :=
+  try replace (a <? b) with true by lia; try replace (b >? a) with true by lia;
+  try replace (a >=? b) with false by lia; try replace (b <=? a) with false by lia.
+
 Theorem ring_waitForWriteSpace : T_ring_waitForWriteSpace.
 Proof.
   intros r n pw. unfold go_service_waitForWriteSpace, go_service_isDone, wfs, set_gate. rewrite ?dz_eqb.
@@ -58,10 +67,8 @@ Qed.
 
 Theorem ring_ReadCommit : T_ring_ReadCommit.
 Proof.
-  intros r n Hn. unfold go_service_ReadCommit, r_read_commit.
-  destruct (size r <? n) eqn:E1; destruct (n >? size r) eqn:E2; try lia; [reflexivity|].
-  destruct (n <? 0) eqn:E3; try lia.
-  destruct (cseq r + n <=? pseq r) eqn:E4; reflexivity.
+  intros r n Hn. unfold go_service_ReadCommit, r_read_commit. cbv beta iota zeta.
+  cmp_all; cbn [Seq.cseq]; reflexivity.
 Qed.
 
 (* ---------- lists ---------- *)
@@ -94,6 +101,9 @@ Qed.
 
 Lemma go_sub_all (l : list Z) : go_sub l 0 (go_len l) = l.
 Proof. unfold go_sub, go_len. rewrite Z.sub_0_r, Nat2Z.id. cbn [Z.to_nat skipn]. apply firstn_all. Qed.
+
+Lemma go_sub_all' (l : list Z) n : go_len l = n -> go_sub l 0 n = l.
+Proof. intros <-. apply go_sub_all. Qed.
 
 Lemma go_sub_nil (l : list Z) : go_sub l 0 0 = [].
 Proof. reflexivity. Qed.
@@ -199,51 +209,58 @@ Qed.
 Theorem ring_ReadWait : T_ring_ReadWait.
 Proof.
   intros r tmp n Hok Hn. pose proof Hok as [Hp Hl]. pose proof (pow2_pos _ Hp) as Hs.
-  pose proof (Z.mod_pos_bound (cseq r) (size r) Hs) as Hb.
-  unfold go_service_ReadWait, r_read_wait, go_service_isDone. rewrite dz_eqb, land_mask by exact Hp.
-  destruct (size r <? n) eqn:E1; destruct (n >? size r) eqn:E2; try lia; [eexists; reflexivity|].
-  destruct (n <? 0) eqn:E3; try lia. cbn zeta.
-  destruct (pseq r <? cseq r + n) eqn:E4; destruct (cseq r + n >? pseq r) eqn:E5; try lia;
-    [destruct (done r); eexists; reflexivity|].
-  destruct (cseq r mod size r + n >? size r) eqn:E6.
-  - destruct (peek_bytes_wrap r n Hok ltac:(lia) ltac:(lia)) as [Hbytes Hlen].
-    rewrite go_sub_nil, app_nil_l. rewrite !go_len_zb, Hl.
-    rewrite go_sub_len by (rewrite ?go_len_zb; lia).
-    pose proof (go_len_nonneg tmp).
-    replace (n - (size r - cseq r mod size r)) with (n - (size r - cseq r mod size r)) in * by ring.
+  pose proof (Z.mod_pos_bound (cseq r) (size r) Hs) as Hb. pose proof (go_len_nonneg tmp) as Ht.
+  unfold go_service_ReadWait, r_read_wait. autounfold with gotrans. cbv beta iota zeta.
+  rewrite ?dz_eqb, ?land_mask by exact Hp.
+  know_le 0 n.
+  destruct (size r <? n) eqn:E1.
+  { know_lt (size r) n. eexists; reflexivity. }
+  know_le n (size r).
+  destruct (pseq r <? cseq r + n) eqn:E4.
+  { know_lt (pseq r) (cseq r + n). destruct (done r); eexists; reflexivity. }
+  know_le (cseq r + n) (pseq r).
+  destruct (Z_le_dec (cseq r mod size r + n) (size r)) as [Hnw|Hw].
+  - know_le (cseq r mod size r + n) (size r). rewrite ?go_len_zb, ?Hl. bcase. eexists.
+    pose proof (ring_get_nowrap (size r) (buf r) (cseq r) (Z.to_nat n) Hs Hl) as Hnw'.
+    rewrite Z2Nat.id in Hnw' by lia. rewrite Hnw' by lia. reflexivity.
+  - know_lt (size r) (cseq r mod size r + n).
+    destruct (peek_bytes_wrap r n Hok ltac:(lia) ltac:(lia)) as [Hbytes Hlen].
+    rewrite ?go_sub_nil, ?app_nil_l. rewrite ?go_len_zb, ?Hl.
+    rewrite ?go_sub_len by (rewrite ?go_len_zb; lia).
     set (T := go_sub (zb (buf r)) (cseq r mod size r) (size r) ++ go_sub (zb (buf r)) 0 (n - (size r - cseq r mod size r))) in *.
-    bcase. eexists. rewrite <- Hlen at 1. rewrite go_sub_all, Hbytes. reflexivity.
-  - rewrite go_len_zb, Hl. bcase. eexists.
-    pose proof (ring_get_nowrap (size r) (buf r) (cseq r) (Z.to_nat n) Hs Hl) as Hnw.
-    rewrite Z2Nat.id in Hnw by lia. rewrite Hnw by lia. reflexivity.
+    bcase. eexists. rewrite (go_sub_all' T n Hlen), Hbytes. reflexivity.
 Qed.
 
 (* the tail of a peek: the m bytes at the consumer cursor, wrapped (through the scratch buffer) or not *)
 Ltac peek_tail r m Hok Hs Hl :=
-  let Hbytes := fresh "Hbytes" in let Hlen := fresh "Hlen" in let Hnw := fresh "Hnw" in let F := fresh "F" in
-  destruct (cseq r mod size r + m >? size r) eqn:F;
-  [ destruct (peek_bytes_wrap r m Hok ltac:(lia) ltac:(lia)) as [Hbytes Hlen];
+  let Hbytes := fresh "Hbytes" in let Hlen := fresh "Hlen" in let Hnw := fresh "Hnw" in
+  let Hc := fresh "Hc" in
+  destruct (Z_le_dec (cseq r mod size r + m) (size r)) as [Hc|Hc];
+  [ know_le (cseq r mod size r + m) (size r); rewrite ?go_len_zb, ?Hl; bcase; do 2 eexists;
+    pose proof (ring_get_nowrap (size r) (buf r) (cseq r) (Z.to_nat m) Hs Hl) as Hnw;
+    rewrite Z2Nat.id in Hnw by lia; rewrite Hnw by lia; reflexivity
+  | know_lt (size r) (cseq r mod size r + m);
+    destruct (peek_bytes_wrap r m Hok ltac:(lia) ltac:(lia)) as [Hbytes Hlen];
     rewrite ?go_sub_nil, ?app_nil_l; rewrite ?go_len_zb, ?Hl;
     rewrite ?go_sub_len by (rewrite ?go_len_zb; lia);
-    bcase; do 2 eexists; rewrite ?Hbytes; reflexivity
-  | rewrite ?go_len_zb, ?Hl; bcase; do 2 eexists;
-    pose proof (ring_get_nowrap (size r) (buf r) (cseq r) (Z.to_nat m) Hs Hl) as Hnw;
-    rewrite Z2Nat.id in Hnw by lia; rewrite Hnw by lia; reflexivity ].
+    bcase; do 2 eexists; rewrite ?Hbytes; reflexivity ].
 
 Theorem ring_ReadPeek : T_ring_ReadPeek.
 Proof.
   intros r tmp n cw Hok Hn Hinv. pose proof Hok as [Hp Hl]. pose proof (pow2_pos _ Hp) as Hs.
   pose proof (Z.mod_pos_bound (cseq r) (size r) Hs) as Hb. pose proof (go_len_nonneg tmp) as Ht.
-  unfold go_service_ReadPeek, r_read_peek, go_service_isDone. rewrite dz_eqb, !land_mask by exact Hp.
-  destruct (size r <? n) eqn:E1; destruct (n >? size r) eqn:E2; try lia; [do 2 eexists; reflexivity|].
-  destruct (n <? 0) eqn:E3; try lia. cbn zeta.
-  destruct (pseq r <=? cseq r) eqn:E4; destruct (cseq r >=? pseq r) eqn:E5; try lia;
-    [destruct (done r); do 2 eexists; reflexivity|].
-  destruct (n <=? pseq r - cseq r) eqn:E6; destruct (pseq r - cseq r >=? n) eqn:E7; try lia.
-  - destruct (pseq r - cseq r <? n) eqn:E8; try lia.
-    destruct (cseq r + n <=? pseq r) eqn:F1; try lia. peek_tail r n Hok Hs Hl.
-  - destruct (pseq r - cseq r <? n) eqn:E8; try lia.
-    destruct (cseq r + (pseq r - cseq r) <=? pseq r) eqn:F1; try lia. peek_tail r (pseq r - cseq r) Hok Hs Hl.
+  unfold go_service_ReadPeek, r_read_peek. autounfold with gotrans. cbv beta iota zeta.
+  rewrite ?dz_eqb, ?land_mask by exact Hp.
+  know_le 0 n.
+  destruct (size r <? n) eqn:E1.
+  { know_lt (size r) n. do 2 eexists; reflexivity. }
+  know_le n (size r).
+  destruct (pseq r <=? cseq r) eqn:E4.
+  { know_le (pseq r) (cseq r). destruct (done r); do 2 eexists; reflexivity. }
+  know_lt (cseq r) (pseq r).
+  destruct (Z_le_dec n (pseq r - cseq r)) as [Hm|Hm].
+  - know_le n (pseq r - cseq r). know_le (cseq r + n) (pseq r). peek_tail r n Hok Hs Hl.
+  - know_lt (pseq r - cseq r) n. know_le (cseq r + (pseq r - cseq r)) (pseq r). peek_tail r (pseq r - cseq r) Hok Hs Hl.
 Qed.
 
 (* ---------- ringCopy ---------- *)
@@ -414,24 +431,37 @@ Proof.
   - rewrite go_sub_len; rewrite ?go_len_zb; lia.
 Qed.
 
+(* copy(p, src) as a value and as a statement are the same copy *)
+Lemma go_copy_to_whole (p src : list Z) :
+  go_copy_to p 0 (go_len p) src = go_copy p 0 src /\ go_copy_to_n p 0 (go_len p) src = go_copy_n p 0 src.
+Proof.
+  unfold go_copy_to, go_copy_to_n, go_copy, go_copy_n, go_len. split; [|reflexivity].
+  cbn [Z.to_nat firstn app Nat.add]. rewrite Nat.sub_0_r. do 2 f_equal; f_equal; lia.
+Qed.
+
 Theorem ring_Read : T_ring_Read.
 Proof.
   intros r p cw Hok Hinv. pose proof Hok as [Hp Hl]. pose proof (pow2_pos _ Hp) as Hs.
   pose proof (Z.mod_pos_bound (cseq r) (size r) Hs) as Hb. pose proof (go_len_nonneg p) as Hpl.
-  unfold go_service_Read, r_read, go_service_isDone, go_service_Len, rlen. rewrite dz_eqb.
+  unfold go_service_Read, r_read, rlen. autounfold with gotrans. cbv beta iota zeta. rewrite ?dz_eqb.
   assert (Hhead : (if done r then Some (pseq r - cseq r =? 0) else Some false) = Some (done r && (pseq r - cseq r =? 0)))
     by (destruct (done r); reflexivity).
-  rewrite Hhead. destruct (done r && (pseq r - cseq r =? 0)) eqn:E0; [eexists; reflexivity|].
-  rewrite go_loop_S. cbn beta iota zeta. rewrite !land_mask by exact Hp. rewrite !go_len_zb, Hl.
-  destruct (cseq r + go_len p <? pseq r) eqn:E1.
-  - destruct (read_copy r p (size r) (Z.min (go_len p) (size r - cseq r mod size r)) Hok ltac:(lia) ltac:(lia) eq_refl) as (Hc & Hcn & Hlen).
-    bcase. rewrite Hc, Hcn, Hlen. eexists. reflexivity.
-  - destruct (cseq r <? pseq r) eqn:E2.
-    + destruct (cseq r mod size r + (pseq r - cseq r) <? size r) eqn:E3.
-      * destruct (read_copy r p (cseq r mod size r + (pseq r - cseq r)) (Z.min (go_len p) (pseq r - cseq r)) Hok ltac:(lia) ltac:(lia) ltac:(lia)) as (Hc & Hcn & Hlen).
-        bcase. rewrite Hc, Hcn, Hlen. eexists. reflexivity.
-      * destruct (read_copy r p (size r) (Z.min (go_len p) (size r - cseq r mod size r)) Hok ltac:(lia) ltac:(lia) eq_refl) as (Hc & Hcn & Hlen).
-        bcase. rewrite Hc, Hcn, Hlen. eexists. reflexivity.
-    + destruct (cseq r >=? pseq r) eqn:E4; try lia.
-      destruct (done r); eexists; reflexivity.
+  rewrite ?Hhead. destruct (done r && (pseq r - cseq r =? 0)) eqn:E0; [eexists; reflexivity|].
+  rewrite go_loop_S. cbv beta iota zeta. rewrite ?land_mask by exact Hp. rewrite ?go_len_zb, ?Hl.
+  rewrite ?(proj1 (go_copy_to_whole p _)), ?(proj2 (go_copy_to_whole p _)).
+  destruct (Z_lt_dec (cseq r + go_len p) (pseq r)) as [HA|HA].
+  - know_lt (cseq r + go_len p) (pseq r).
+    destruct (read_copy r p (size r) (Z.min (go_len p) (size r - cseq r mod size r)) Hok ltac:(lia) ltac:(lia) eq_refl) as (Hc & Hcn & Hlen).
+    rewrite ?Hc, ?Hcn. bcase. rewrite ?Hc, ?Hcn, ?Hlen. eexists. reflexivity.
+  - know_le (pseq r) (cseq r + go_len p).
+    destruct (Z_lt_dec (cseq r) (pseq r)) as [HB|HB].
+    + know_lt (cseq r) (pseq r).
+      destruct (Z_lt_dec (cseq r mod size r + (pseq r - cseq r)) (size r)) as [HB1|HB1].
+      * know_lt (cseq r mod size r + (pseq r - cseq r)) (size r).
+        destruct (read_copy r p (cseq r mod size r + (pseq r - cseq r)) (Z.min (go_len p) (pseq r - cseq r)) Hok ltac:(lia) ltac:(lia) ltac:(lia)) as (Hc & Hcn & Hlen).
+        rewrite ?Hc, ?Hcn. bcase. rewrite ?Hc, ?Hcn, ?Hlen. eexists. reflexivity.
+      * know_le (size r) (cseq r mod size r + (pseq r - cseq r)).
+        destruct (read_copy r p (size r) (Z.min (go_len p) (size r - cseq r mod size r)) Hok ltac:(lia) ltac:(lia) eq_refl) as (Hc & Hcn & Hlen).
+        rewrite ?Hc, ?Hcn. bcase. rewrite ?Hc, ?Hcn, ?Hlen. eexists. reflexivity.
+    + know_le (pseq r) (cseq r). destruct (done r); eexists; reflexivity.
 Qed.
